@@ -189,10 +189,20 @@ Definition pid_validate (pid : bytes) : option nat :=
 
 Definition prefetch : nat := Z.to_nat hdr_prefetch.
 
-(* readStreamEstablishHeader over a chunked stream *)
-Definition read_header (s : stream) : outcome (bytes * stream) :=
+(* readStreamEstablishHeader over a chunked stream.
+
+   de ("data with error"): the io.Reader contract allows the Read that
+   delivers the last bytes of the stream to report the end error in the same
+   call (n > 0, err = io.EOF; quic-go streams and iotest.DataErrReader do).
+   readAtLeast checks err before adding nr, so such a Read makes it fail and
+   drop the bytes.  With de = true the stream behaves that way: a readAtLeast
+   stage whose last Read exhausts the stream fails with EOF. *)
+Definition exhausted (s : stream) : bool := match sdata s with [] => true | _ => false end.
+
+Definition read_header_de (de : bool) (s : stream) : outcome (bytes * stream) :=
   let '(b, s1) := read_full prefetch s in            (* readAtLeast(r, 0, 4, b) *)
   if (length b <? prefetch)%nat then Err E_EOF else
+  if de && exhausted s1 then Err E_EOF else
   match varint_dec b with                              (* ConsumeVarint(b) *)
   | VErr => Err E_VARINT
   | VOk hl n0 =>
@@ -207,6 +217,7 @@ Definition read_header (s : stream) : outcome (bytes * stream) :=
       if (have <? hln)%nat then                        (* readAtLeast(r, n, headerLen, headerBuf) *)
         let '(more, s2) := read_full (hln - have) s1 in
         if (length more <? hln - have)%nat then Err E_EOF else
+        if de && exhausted s2 then Err E_EOF else
         match unmarshal (copied ++ more) with
         | None => Err E_UNMARSHAL
         | Some pid => Ok (pid, s2)
@@ -218,6 +229,8 @@ Definition read_header (s : stream) : outcome (bytes * stream) :=
         end
   end.
 
+Definition read_header (s : stream) : outcome (bytes * stream) := read_header_de false s.
+
 (* HandleIncomingStream up to the directive: either the stream is closed, or
    HandleMountedStream(pid, lnk.GetLocalPeer(), lnk.GetRemotePeer()) is looked
    up and the handler gets the stream with `rest` still unread. *)
@@ -225,6 +238,17 @@ Inductive hres :=
 | Dispatch (pid local remote rest : bytes)
 | Closed (k : nat)
 | HPanic.
+
+Definition handle_incoming_de (de : bool) (local remote : bytes) (s : stream) : hres :=
+  match read_header_de de s with
+  | Ok (pid, s') =>
+      match pid_validate pid with
+      | Some k => Closed k
+      | None => Dispatch pid local remote (sdata s')
+      end
+  | Err k => Closed k
+  | Panic => HPanic
+  end.
 
 Definition handle_incoming (local remote : bytes) (s : stream) : hres :=
   match read_header s with
@@ -239,8 +263,9 @@ Definition handle_incoming (local remote : bytes) (s : stream) : hres :=
 
 (* the same as a function of the data alone (no chunking): what the proofs show
    read_header computes for every chunking *)
-Definition parse_header (D : bytes) : outcome (bytes * bytes) :=
+Definition parse_header_de (de : bool) (D : bytes) : outcome (bytes * bytes) :=
   if (length D <? prefetch)%nat then Err E_EOF else
+  if de && (length D =? prefetch)%nat then Err E_EOF else
   match varint_dec (firstn prefetch D) with
   | VErr => Err E_VARINT
   | VOk hl n =>
@@ -249,10 +274,24 @@ Definition parse_header (D : bytes) : outcome (bytes * bytes) :=
       let X := skipn n D in
       let hln := Z.to_nat hl in
       if (length X <? hln)%nat then Err E_EOF else
+      if de && (prefetch - n <? hln)%nat && (length X =? hln)%nat then Err E_EOF else
       match unmarshal (firstn hln X) with
       | None => Err E_UNMARSHAL
       | Some pid => Ok (pid, skipn (Nat.max hln (prefetch - n)) X)
       end
+  end.
+
+Definition parse_header (D : bytes) : outcome (bytes * bytes) := parse_header_de false D.
+
+Definition handle_pure_de (de : bool) (local remote D : bytes) : hres :=
+  match parse_header_de de D with
+  | Ok (pid, rest) =>
+      match pid_validate pid with
+      | Some k => Closed k
+      | None => Dispatch pid local remote rest
+      end
+  | Err k => Closed k
+  | Panic => HPanic
   end.
 
 Definition handle_pure (local remote D : bytes) : hres :=
